@@ -364,9 +364,15 @@ pub fn install_abort_capture(prop: &str, replay_dir: &std::path::Path) {
     unsafe {
         ABORT_TABLE = &*g as *const _;
         ABORT_READY.store(true, Ordering::SeqCst);
-        libc::signal(libc::SIGABRT, on_fatal as *const () as libc::sighandler_t);
-        libc::signal(libc::SIGSEGV, on_fatal as *const () as libc::sighandler_t);
-        libc::signal(libc::SIGBUS, on_fatal as *const () as libc::sighandler_t);
+        // SA_ONSTACK: a stack overflow raises SIGSEGV on a stack that has no room left for a handler; the threads std
+        // spawns carry an alternate signal stack, on which the handler then runs
+        for sig in [libc::SIGABRT, libc::SIGSEGV, libc::SIGBUS] {
+            let mut sa: libc::sigaction = std::mem::zeroed();
+            sa.sa_sigaction = on_fatal as *const () as usize;
+            sa.sa_flags = libc::SA_ONSTACK;
+            libc::sigemptyset(&mut sa.sa_mask);
+            libc::sigaction(sig, &sa, std::ptr::null_mut());
+        }
     }
 }
 
